@@ -1,41 +1,18 @@
-(* LexProofs.v -- proofs about Lex.v: the tree invariant is preserved by every operation
-   outside the guards K1..K4, a refused operation changes nothing, and the guards are
-   needed (witnesses). *)
+(* LexProofs.v -- proofs about Lex.v: the tree invariant is preserved by EVERY operation and a
+   refused operation changes nothing, whatever the bounds of the model. *)
 From PW Require Import Base Lex.
 From Coq Require Import DecimalString Ascii.
 Open Scope nat_scope.
 
 (* ---- strings ------------------------------------------------------------------------ *)
-Lemma sapp_assoc a b c : (a +++ b) +++ c = a +++ (b +++ c).
-Proof. induction a as [|x a IH]; simpl; [reflexivity | now rewrite IH]. Qed.
+Lemma has_slash_app a b : has_slash (a +++ b) = has_slash a || has_slash b.
+Proof. induction a as [|x a IH]; simpl; [reflexivity | now rewrite IH, orb_assoc]. Qed.
 
-Lemma prefix_app a b : prefix a (a +++ b) = true.
-Proof.
-  induction a as [|x a IH]; simpl.
-  - now destruct b.
-  - destruct (Ascii.ascii_dec x x); [exact IH | congruence].
-Qed.
+Lemma has_slash_uint d : has_slash (NilEmpty.string_of_uint d) = false.
+Proof. induction d; simpl; auto. Qed.
 
-Lemma prefix_app_r a b c : prefix a b = true -> prefix a (b +++ c) = true.
-Proof.
-  revert b; induction a as [|x a IH]; intros b H; simpl.
-  - now destruct (b +++ c).
-  - destruct b as [|y b]; simpl in *; [discriminate|].
-    destruct (Ascii.ascii_dec x y); [now apply IH | discriminate].
-Qed.
-
-Lemma prefix_length a b : prefix a b = true -> String.length a <= String.length b.
-Proof.
-  revert b; induction a as [|x a IH]; intros b H; simpl; [lia|].
-  destruct b as [|y b]; simpl in *; [discriminate|].
-  destruct (Ascii.ascii_dec x y); [apply IH in H; lia | discriminate].
-Qed.
-
-Lemma slength_app a b : String.length (a +++ b) = String.length a + String.length b.
-Proof. induction a as [|x a IH]; simpl; [reflexivity | now rewrite IH]. Qed.
-
-Lemma sapp_slash a x : a +++ String "/" x = (a +++ "/") +++ x.
-Proof. rewrite sapp_assoc. reflexivity. Qed.
+Lemma has_slash_nat_str i : has_slash (nat_str i) = false.
+Proof. apply has_slash_uint. Qed.
 
 (* ---- the bidict ----------------------------------------------------------------------- *)
 Lemma key_get_In k c l : key_get k l = Some c -> In (k, c) l.
@@ -178,57 +155,6 @@ Definition aos (s : state) (m n : nat) : Prop := m = n \/ anc s m n.
 Lemma aos_up s m n p : par s n = Some p -> aos s m p -> anc s m n.
 Proof. intros H [->|A]; [now apply anc_par | now apply anc_up with p]. Qed.
 
-Lemma path_mono g g' s n x : path g s n = Some x -> g <= g' -> path g' s n = Some x.
-Proof.
-  revert g' n x; induction g as [|g IH]; intros g' n x H L; simpl in H; [discriminate|].
-  destruct g' as [|g']; [lia|]. simpl.
-  destruct (par s n) as [p|]; [|assumption].
-  destruct (path g s p) as [pp|] eqn:E; [|discriminate].
-  rewrite (IH g' p pp E) by lia. assumption.
-Qed.
-
-Lemma path_anc_prefix s c p : anc s c p -> forall g pp, path g s p = Some pp ->
-  exists pc, path g s c = Some pc /\ prefix (pc +++ "/") pp = true.
-Proof.
-  induction 1 as [n Hp | n m Hp A IH]; intros g pp H; destruct g as [|g]; simpl in H; try discriminate;
-    rewrite Hp in H.
-  - destruct (path g s c) as [pc|] eqn:E; [|discriminate]. injection H as <-.
-    exists pc; split; [apply path_mono with g; [assumption | lia]|].
-    rewrite (sapp_slash pc (lbl s n)). exact (prefix_app (pc +++ "/") (lbl s n)).
-  - destruct (path g s m) as [pm|] eqn:E; [|discriminate]. injection H as <-.
-    destruct (IH g pm E) as [pc [H1 H2]].
-    exists pc; split; [apply path_mono with g; [assumption | lia]|].
-    now apply prefix_app_r.
-Qed.
-
-Lemma path_ext s s' : forall g n,
-  (forall m, aos s m n -> par s' m = par s m /\ lbl s' m = lbl s m) ->
-  path g s' n = path g s n.
-Proof.
-  induction g as [|g IH]; intros n H; simpl; [reflexivity|].
-  destruct (H n (or_introl eq_refl)) as [Hp Hl]. rewrite Hp, Hl.
-  destruct (par s n) as [p|] eqn:E; [|reflexivity].
-  rewrite IH; [reflexivity|]. intros m A. apply H. right. now apply aos_up with p.
-Qed.
-
-Lemma cyclic_none pf s p c : cyclic pf s p c = None ->
-  p <> c /\ ~ anc s c p /\ exists pp pc, path pf s p = Some pp /\ path pf s c = Some pc /\ prefix (pc +++ "/") pp = false.
-Proof.
-  unfold cyclic. destruct (Nat.eqb_spec p c); [discriminate|].
-  destruct (path pf s p) as [pp|] eqn:Ep; [|discriminate].
-  destruct (path pf s c) as [pc|] eqn:Ec; [|discriminate].
-  destruct (prefix (pc +++ "/") pp) eqn:Ex; [discriminate|]. intros _.
-  split; [assumption|]. split; [|now exists pp, pc].
-  intros A. destruct (path_anc_prefix s c p A pf pp Ep) as [pc' [H1 H2]]. congruence.
-Qed.
-
-Lemma prefix_longer a b : prefix ((a +++ b) +++ "/") a = false.
-Proof.
-  destruct (prefix ((a +++ b) +++ "/") a) eqn:E; [|reflexivity].
-  apply prefix_length in E. rewrite !slength_app in E. simpl in E. lia.
-Qed.
-
-(* rootedness when one parent pointer changes *)
 Lemma rooted_cut s s' c : par s' c = None -> (forall n, n <> c -> par s' n = par s n) ->
   forall n, rooted s n -> rooted s' n.
 Proof.
@@ -300,47 +226,6 @@ Proof.
   - apply IH; [assumption|]. intros a b c Ha Hb. apply (H a b c); now right.
 Qed.
 
-Ltac eqb_cases :=
-  repeat match goal with
-  | |- context [Nat.eqb ?a ?b] => destruct (Nat.eqb_spec a b); try subst; try congruence
-  | H : context [Nat.eqb ?a ?b] |- _ => destruct (Nat.eqb_spec a b); try subst; try congruence
-  end.
-
-
-Lemma path_ext_off s s' c : (forall m, m <> c -> par s' m = par s m /\ lbl s' m = lbl s m) ->
-  forall g n, ~ aos s c n -> path g s' n = path g s n.
-Proof.
-  intros H g n NA. apply path_ext. intros m A. apply H. intros ->. now apply NA.
-Qed.
-
-Lemma path_some_S g s n x : path g s n = Some x -> exists g', g = S g'.
-Proof. destruct g; simpl; [discriminate | intros _; now eexists]. Qed.
-
-(* the second cyclic test of an adoption: the child is an orphan that carries its new label *)
-Lemma cyc_orphan pf s s' p c pp :
-  (forall g, path g s' p = path g s p) -> par s' c = None ->
-  p <> c -> path pf s p = Some pp -> prefix ("/" +++ lbl s' c +++ "/") pp = false ->
-  cyclic pf s' p c = None.
-Proof.
-  intros H Hc D Hp Hx. unfold cyclic. destruct (Nat.eqb_spec p c); [contradiction|].
-  rewrite H, Hp. destruct (path_some_S _ _ _ _ Hp) as [g ->]. simpl. rewrite Hc.
-  cbn [String.append] in Hx |- *. now rewrite Hx.
-Qed.
-
-(* the cyclic test once the child already names the composite as parent *)
-Lemma cyc_child pf s s' p c pp :
-  (forall g, path g s' p = path g s p) -> par s' c = Some p ->
-  p <> c -> path pf s p = Some pp ->
-  cyclic pf s' p c = None \/ cyclic pf s' p c = Some ERecursion.
-Proof.
-  intros E Hc D Hp. unfold cyclic. destruct (Nat.eqb_spec p c); [contradiction|].
-  rewrite E, Hp. destruct (path_some_S _ _ _ _ Hp) as [g ->]. simpl. rewrite Hc, E.
-  destruct (path g s p) as [pp'|] eqn:Eg; [|now right].
-  rewrite (path_mono g (S g) s p pp' Eg) in Hp by lia. injection Hp as ->.
-  left. replace (pp +++ String "/" (lbl s' c)) with (pp +++ "/" +++ lbl s' c) by reflexivity.
-  now rewrite prefix_longer.
-Qed.
-
 Lemma anc_transport s s1 c : (forall m, m <> c -> par s1 m = par s m) -> par s1 c = None ->
   forall q, anc s1 c q -> anc s c q.
 Proof.
@@ -348,6 +233,55 @@ Proof.
   - apply anc_par. rewrite <- H; [assumption|]. intros ->. congruence.
   - apply anc_up with m; [|assumption]. rewrite <- H; [assumption|]. intros ->. congruence.
 Qed.
+
+
+(* ---- the cyclic test: a walk up the parent pointers ------------------------------------------ *)
+Definition aos_opt (s : state) (m : nat) (a : option nat) : Prop :=
+  match a with Some x => aos s m x | None => False end.
+
+Lemma walk_ext s s' c : forall g a,
+  (forall m, aos_opt s m a -> par s' m = par s m) -> walk g s' a c = walk g s a c.
+Proof.
+  induction g as [|g IH]; intros [x|] H; simpl; try reflexivity.
+  destruct (x =? c); [reflexivity|].
+  rewrite (H x (or_introl eq_refl)). apply IH.
+  intros m A. apply H. destruct (par s x) as [y|] eqn:E; [|contradiction].
+  right. now apply aos_up with y.
+Qed.
+
+Lemma walk_false_not_aos s c : forall g p, walk g s (Some p) c = Some false -> ~ aos s c p.
+Proof.
+  induction g as [|g IH]; intros p H; simpl in H; [discriminate|].
+  destruct (Nat.eqb_spec p c) as [E0|D]; [discriminate H|].
+  intros [E|A]; [congruence|].
+  destruct (par s p) as [m|] eqn:Ep.
+  - apply (IH m H). inversion A as [n Hn | n m' Hn Am]; subst.
+    + left. congruence.
+    + right. congruence.
+  - inversion A; congruence.
+Qed.
+
+Lemma cyclic_none pf s p c : cyclic pf s (Some p) c = None -> p <> c /\ ~ anc s c p.
+Proof.
+  unfold cyclic. destruct (walk pf s (Some p) c) as [[|]|] eqn:E; try discriminate. intros _.
+  apply walk_false_not_aos in E. split; intros H; apply E; [left; congruence | now right].
+Qed.
+
+Lemma cyclic_root pf s c : cyclic pf s None c = None.
+Proof. unfold cyclic. now destruct pf. Qed.
+
+(* under a well-founded parent chain the walk ends: enough fuel exists for every start *)
+Lemma walk_terminates s c x : rooted s x -> exists g0, forall g, g0 <= g -> walk g s (Some x) c <> None.
+Proof.
+  induction 1 as [n Hn | n p Hn R [g0 IH]].
+  - exists 1. intros [|g] L; [lia|]. simpl. rewrite Hn. destruct (n =? c); [discriminate | now destruct g].
+  - exists (S g0). intros [|g] L; [lia|]. simpl. rewrite Hn. destruct (n =? c); [discriminate|].
+    apply IH. lia.
+Qed.
+
+Lemma cyclic_ext pf s s' p c : (forall m, aos s m p -> par s' m = par s m) ->
+  cyclic pf s' (Some p) c = cyclic pf s (Some p) c.
+Proof. intros H. unfold cyclic. now rewrite (walk_ext s s' c pf (Some p) H). Qed.
 
 Section Proofs.
 Variable kindof : nat -> kind.
@@ -376,6 +310,10 @@ Qed.
 
 Lemma inv_orphan_unlisted s c : INV s -> par s c = None -> forall p k, ~ In (k, c) (kids s p).
 Proof. intros I H p k Hin. apply (inv_agree _ _ _ I) in Hin. destruct Hin; congruence. Qed.
+
+Definition same (s s' : state) : Prop :=
+  (forall n, lbl s n = lbl s' n) /\ (forall n, par s n = par s' n) /\
+  (forall n, kids s n = kids s' n) /\ (forall n, strt s n = strt s' n).
 
 Lemma Inv_same s s' : same s s' -> INV s -> INV s'.
 Proof.
@@ -534,22 +472,22 @@ Proof.
 Qed.
 
 
+
+
 (* ---- executions ---------------------------------------------------------------------------- *)
 Notation SP := (sp kindof strictof reserved pfuel).
 Notation AC := (ac kindof strictof reserved pfuel).
 Notation RC := (rc kindof strictof reserved pfuel).
 Notation RP := (rp kindof strictof reserved pfuel).
 Notation CYC := (cyclic pfuel).
+Notation UL := (unique_label kindof reserved pfuel).
 
-Lemma sp_S f s c np : SP (S f) s c np = sp_body kindof pfuel (RC f) (AC f) s c np.
+Lemma sp_S f s c np : SP (S f) s c np = sp_body kindof strictof reserved pfuel (RC f) (AC f) s c np.
 Proof. reflexivity. Qed.
 Lemma ac_S f s p c lb sn : AC (S f) s p c lb sn = ac_body kindof strictof reserved pfuel (SP f) s p c lb sn.
 Proof. reflexivity. Qed.
 Lemma rc_S f s p x : RC (S f) s p x = rc_body (SP f) s p x.
 Proof. reflexivity. Qed.
-Lemma sp_0 s c np : SP 0 s c np = (s, Err ERecursion). Proof. reflexivity. Qed.
-Lemma ac_0 s p c lb sn : AC 0 s p c lb sn = (s, Err ERecursion). Proof. reflexivity. Qed.
-Lemma rc_0 s p x : RC 0 s p x = (s, Err ERecursion). Proof. reflexivity. Qed.
 
 Lemma val_mem_val_pop c l : NoDup (map snd l) -> val_mem c (val_pop c l) = false.
 Proof.
@@ -589,20 +527,6 @@ Proof.
   - apply mems_In. now apply key_mem_true.
   - destruct (mems l (map fst ks)) eqn:E2; [|reflexivity].
     apply mems_In, key_mem_true in E2. congruence.
-Qed.
-
-Lemma rc_listed s p k c f : INV s -> In (k, c) (kids s p) ->
-  is_rec (snd (RC f s p (inr c))) = true \/ RC f s p (inr c) = (detach s p c, Ok).
-Proof.
-  intros I Hin. pose proof (inv_vals s p I) as NDv.
-  pose proof (proj1 (inv_agree _ _ _ I p k c) Hin) as [Hpc Hlc].
-  assert (Hm : val_mem c (kids s p) = true) by (apply val_mem_true; now exists k).
-  destruct f as [|[|f]]; [left; reflexivity | left | right].
-  - rewrite rc_S. unfold rc_body. rewrite Hm, sp_0. reflexivity.
-  - rewrite rc_S. unfold rc_body. rewrite Hm, sp_S.
-    unfold sp_body. rewrite (wf_of_par s c p I Hpc).
-    cbn [lbl par kids strt set_lbl set_par set_kids set_strt]. rewrite Hpc. cbn [oeqb].
-    rewrite Nat.eqb_refl, (val_mem_val_pop c _ NDv). reflexivity.
 Qed.
 
 Lemma suffix_fresh g s p l : forall i cur x,
@@ -648,63 +572,117 @@ Qed.
 
 Definition dflt {A} (o : option A) (d : A) : A := match o with Some x => x | None => d end.
 
-Lemma ac_orphan s p c lb sn l' pp f :
-  INV s -> is_comp kindof p = true -> is_wf kindof c = false -> par s c = None ->
-  CYC s p c = None ->
-  unique_label kindof reserved pfuel s p (dflt lb (lbl s c)) (dflt sn (strictof p)) = inl l' ->
-  has_slash l' = false ->
-  path pfuel s p = Some pp -> prefix ("/" +++ l' +++ "/") pp = false ->
-  is_rec (snd (AC f s p c lb sn)) = true \/ AC f s p c lb sn = (attach s p c l', Ok).
+
+Lemma oeqb_eq a b : oeqb a b = true -> a = b.
+Proof. destruct a, b; simpl; try discriminate; [intros H; apply Nat.eqb_eq in H; now subst | reflexivity]. Qed.
+
+Lemma suffix_ext s s' p : kids s' p = kids s p -> forall g l i cur,
+  suffix kindof reserved g s' p l i cur = suffix kindof reserved g s p l i cur.
 Proof.
-  intros I Cp Wc Hc Hcy Hu Hs Hp Hx.
+  intros K. induction g as [|g IH]; intros l i cur; simpl; unfold in_dir; rewrite K; [reflexivity|].
+  now rewrite IH.
+Qed.
+
+Lemma unique_label_ext s s' p l st : kids s' p = kids s p -> (forall n, lbl s' n = lbl s n) ->
+  UL s' p l st = UL s p l st.
+Proof.
+  intros K Lb. unfold unique_label, in_dir, child_labels. rewrite K, (suffix_ext s s' p K).
+  replace (map (fun kc => lbl s' (snd kc)) (kids s p)) with (map (fun kc => lbl s (snd kc)) (kids s p));
+    [reflexivity|]. apply map_ext. intros a. now rewrite Lb.
+Qed.
+
+Lemma suffix_slash g s p l : has_slash l = false -> forall i cur x, has_slash cur = false ->
+  suffix kindof reserved g s p l i cur = Some x -> has_slash x = false.
+Proof.
+  intros Hl. induction g as [|g IH]; intros i cur x Hc; simpl; destruct (in_dir kindof reserved s p cur);
+    try discriminate; try (intros H; injection H as <-; assumption).
+  apply IH. now rewrite has_slash_app, Hl, has_slash_nat_str.
+Qed.
+
+Lemma unique_label_slash s p l st l' : UL s p l st = inl l' -> has_slash l = false -> has_slash l' = false.
+Proof.
+  unfold unique_label. destruct (in_dir kindof reserved s p l).
+  - destruct (mems l (child_labels s p)); [|discriminate]. destruct st; [discriminate|].
+    destruct (suffix kindof reserved pfuel s p l 0 l) as [x|] eqn:Es; [|discriminate].
+    intros H Hl; injection H as <-. now apply (suffix_slash _ _ _ _ Hl _ _ _ Hl Es).
+  - intros H; now injection H as <-.
+Qed.
+
+Lemma rc_listed s p k c f : INV s -> In (k, c) (kids s p) ->
+  RC (S (S f)) s p (inr c) = (detach s p c, Ok).
+Proof.
+  intros I Hin. pose proof (inv_vals s p I) as NDv.
+  pose proof (proj1 (inv_agree _ _ _ I p k c) Hin) as [Hpc Hlc].
+  assert (Hm : val_mem c (kids s p) = true) by (apply val_mem_true; now exists k).
+  rewrite rc_S. unfold rc_body. rewrite Hm, sp_S.
+  unfold sp_body. rewrite (wf_of_par s c p I Hpc).
+  cbn [lbl par kids strt set_lbl set_par set_kids set_strt]. rewrite Hpc. cbn [oeqb].
+  rewrite cyclic_root, Nat.eqb_refl, (val_mem_val_pop c _ NDv). reflexivity.
+Qed.
+
+Lemma put_fresh l c ks : ~ In l (map fst ks) -> (forall k, ~ In (k, c) ks) -> bd_put l c ks = inl (ks ++ [(l, c)]).
+Proof.
+  intros Fr Un. unfold bd_put. rewrite (proj2 (key_get_None l ks) Fr).
+  assert (Hv : val_key c ks = None).
+  { apply val_key_None. intros H. apply in_map_iff in H. destruct H as [[k v] [E H]]. simpl in E; subst v.
+    now apply Un in H. }
+  now rewrite Hv.
+Qed.
+
+Lemma key_get_app_fresh l c ks : ~ In l (map fst ks) -> key_get l (ks ++ [(l, c)]) = Some c.
+Proof.
+  induction ks as [|[k v] r IH]; simpl; intros Fr.
+  - now rewrite String.eqb_refl.
+  - destruct (String.eqb_spec l k); [subst; tauto | apply IH; tauto].
+Qed.
+
+Lemma unlisted_val_mem c ks : (forall k, ~ In (k, c) ks) -> val_mem c ks = false.
+Proof.
+  intros Un. apply val_mem_false. intros H. apply in_map_iff in H. destruct H as [[k v] [E H]].
+  simpl in E; subst v. now apply Un in H.
+Qed.
+
+(* adoption of an orphan: everything after the checks *)
+Lemma ac_orphan s p c lb sn l' f :
+  INV s -> is_comp kindof p = true -> is_wf kindof c = false -> par s c = None ->
+  CYC s (Some p) c = None ->
+  UL s p (dflt lb (lbl s c)) (dflt sn (strictof p)) = inl l' -> has_slash l' = false ->
+  AC (S (S (S f))) s p c lb sn = (attach s p c l', Ok).
+Proof.
+  intros I Cp Wc Hc Hcy Hu Hs.
   pose proof (inv_orphan_unlisted s c I Hc) as Un.
-  destruct (cyclic_none _ _ _ _ Hcy) as (Dpc & NA & _).
+  destruct (cyclic_none _ _ _ _ Hcy) as (Dpc & NA).
   destruct (in_dir_false _ _ _ (unique_label_fresh _ _ _ _ _ Hu)) as [Rs Fr].
-  destruct f as [|f]; [left; reflexivity|].
-  rewrite ac_S. unfold ac_body. rewrite Hcy, Hc.
+  rewrite ac_S. unfold ac_body. rewrite Wc, Hcy, Hc.
   change (match lb with Some l => l | None => lbl s c end) with (dflt lb (lbl s c)).
   change (match sn with Some b => b | None => strictof p end) with (dflt sn (strictof p)).
-  rewrite (already_here_unlisted s p c _ I (Un p)), Hu, Hs.
-  cbn [oeqb andb]. cbn [lbl par kids strt set_lbl set_par set_kids set_strt].
-  assert (Hput : bd_put l' c (kids s p) = inl (kids s p ++ [(l', c)])).
-  { unfold bd_put. rewrite (proj2 (key_get_None l' (kids s p)) Fr).
-    assert (Hv : val_key c (kids s p) = None).
-    { apply val_key_None. intros H. apply in_map_iff in H. destruct H as [[k v] [E H]]. simpl in E; subst v.
-      now apply Un in H. }
-    now rewrite Hv. }
-  rewrite Hput.
+  rewrite (already_here_unlisted s p c _ I (Un p)), Hu, Hs, (unlisted_val_mem c _ (Un p)).
+  cbn [andb]. cbn [lbl par kids strt set_lbl set_par set_kids set_strt].
+  rewrite (put_fresh l' c (kids s p) Fr (Un p)).
   set (s3 := set_kids (set_lbl s c l') p (kids s p ++ [(l', c)])).
-  assert (H3 : forall g, path g s3 p = path g s p).
-  { intros g. apply path_ext_off with c; [|intros [E|A]; [congruence | contradiction]].
-    intros m D. unfold s3; cbn. now destruct (Nat.eqb_spec m c). }
   assert (H3c : par s3 c = None) by exact Hc.
-  assert (H3l : lbl s3 c = l') by (unfold s3; cbn; now rewrite Nat.eqb_refl).
-  destruct f as [|f]; [left; reflexivity|].
+  assert (Hk3 : kids s3 p = kids s p ++ [(l', c)]) by (unfold s3; cbn; now rewrite Nat.eqb_refl).
   rewrite sp_S. unfold sp_body. rewrite Wc, H3c. cbn [oeqb]. rewrite Cp. cbn [negb].
-  rewrite (cyc_orphan pfuel s s3 p c pp H3 H3c Dpc Hp) by (now rewrite H3l).
+  rewrite (cyclic_ext pfuel s s3 p c) by reflexivity. rewrite Hcy.
+  assert (Hm3 : val_mem c (kids s3 p) = true).
+  { apply val_mem_true. exists l'. rewrite Hk3, in_app_iff. right. now left. }
+  rewrite Hm3.
   set (s4 := set_par s3 c (Some p)).
-  assert (H4 : forall g, path g s4 p = path g s p).
-  { intros g. apply path_ext_off with c; [|intros [E|A]; [congruence | contradiction]].
-    intros m D. unfold s4, s3; cbn. now destruct (Nat.eqb_spec m c). }
   assert (H4c : par s4 c = Some p) by (unfold s4; cbn; now rewrite Nat.eqb_refl).
-  destruct f as [|f]; [left; reflexivity|].
-  rewrite ac_S. unfold ac_body.
-  destruct (cyc_child pfuel s s4 p c pp H4 H4c Dpc Hp) as [Ec|Ec]; rewrite Ec; [|left; reflexivity].
-  rewrite H4c, Nat.eqb_refl. cbn [negb].
+  rewrite ac_S. unfold ac_body. rewrite Wc.
+  rewrite (cyclic_ext pfuel s s4 p c).
+  2:{ intros m A. unfold s4, s3; cbn. destruct (Nat.eqb_spec m c) as [->|]; [|reflexivity].
+      exfalso. destruct A as [E|A]; [congruence | contradiction]. }
+  rewrite Hcy, H4c, Nat.eqb_refl. cbn [negb].
   assert (Hl4 : lbl s4 c = l') by (unfold s4, s3; cbn; now rewrite Nat.eqb_refl).
   assert (Hah : already_here s4 p c (lbl s4 c) = inl true).
   { unfold already_here. rewrite String.eqb_refl, Hl4.
-    assert (Hk : kids s4 p = kids s p ++ [(l', c)]) by (unfold s4, s3; cbn; now rewrite Nat.eqb_refl).
+    assert (Hk : kids s4 p = kids s p ++ [(l', c)]) by exact Hk3.
     rewrite Hk.
     assert (Hm : mems l' (child_labels s4 p) = true).
     { apply mems_In. unfold child_labels. rewrite Hk, map_app, in_app_iff. right. simpl. left. exact Hl4. }
-    rewrite Hm. simpl.
-    assert (Hg : key_get l' (kids s p ++ [(l', c)]) = Some c).
-    { clear - Fr. induction (kids s p) as [|[k v] r IH]; simpl in *.
-      - now rewrite String.eqb_refl.
-      - destruct (String.eqb_spec l' k); [subst; tauto | apply IH; tauto]. }
-    now rewrite Hg, Nat.eqb_refl. }
-  rewrite Hah. right. reflexivity.
+    rewrite Hm. simpl. now rewrite (key_get_app_fresh l' c _ Fr), Nat.eqb_refl. }
+  rewrite Hah. reflexivity.
 Qed.
 
 (* what an operation must establish: accepted => invariant; refused => nothing changed *)
@@ -712,300 +690,193 @@ Definition post (s : state) (x : state * result) : Prop :=
   match snd x with
   | Ok => INV (fst x)
   | Skip => fst x = s
-  | Err e => e = ERecursion \/ fst x = s
+  | Err e => fst x = s
   end.
 
-Lemma post_rec s x : is_rec (snd x) = true -> post s x.
-Proof. unfold post. destruct (snd x) as [|[]|]; simpl; try discriminate. intros _. now left. Qed.
-
-Ltac ac_unf f := destruct f as [|f]; [apply post_rec; reflexivity|]; rewrite ac_S; unfold ac_body.
-
-Lemma ac_top s p c lb sn f : INV s -> is_comp kindof p = true ->
-  risky_adopt kindof reserved pfuel s p c (dflt lb (lbl s c)) (dflt sn (strictof p)) = false ->
-  post s (AC f s p c lb sn).
+Lemma ac_top s p c lb sn f : INV s -> is_comp kindof p = true -> 3 <= f -> post s (AC f s p c lb sn).
 Proof.
-  intros I Cp Hr.
-  unfold risky_adopt in Hr. apply orb_false_iff in Hr. destruct Hr as [Wc Hr].
-  destruct (CYC s p c) as [e|] eqn:Hcy; [ac_unf f; rewrite Hcy; right; reflexivity|].
+  intros I Cp Hf. destruct f as [|[|[|f]]]; try (exfalso; lia). clear Hf.
+  destruct (is_wf kindof c) eqn:Wc; [rewrite ac_S; unfold ac_body; rewrite Wc; reflexivity|].
+  destruct (CYC s (Some p) c) as [e|] eqn:Hcy; [rewrite ac_S; unfold ac_body; rewrite Wc, Hcy; reflexivity|].
   destruct (par s c) as [o|] eqn:Hc.
   - (* c has a parent *)
     destruct (Nat.eqb_spec o p) as [->|D].
-    2:{ ac_unf f. rewrite Hcy, Hc. apply Nat.eqb_neq in D. rewrite D. right; reflexivity. }
+    2:{ rewrite ac_S; unfold ac_body. rewrite Wc, Hcy, Hc. apply Nat.eqb_neq in D. rewrite D. reflexivity. }
     assert (Hin : In (lbl s c, c) (kids s p)) by (apply (inv_agree _ _ _ I); now split).
     pose proof (inv_vals s p I) as NDv.
-    ac_unf f. rewrite Hcy, Hc, Nat.eqb_refl. cbn [negb].
+    rewrite ac_S; unfold ac_body. rewrite Wc, Hcy, Hc, Nat.eqb_refl. cbn [negb].
     change (match lb with Some l => l | None => lbl s c end) with (dflt lb (lbl s c)).
     change (match sn with Some b => b | None => strictof p end) with (dflt sn (strictof p)).
-    destruct (already_here s p c (dflt lb (lbl s c))) as [[|]|e] eqn:Hah; [exact I | | right; reflexivity].
-    destruct (unique_label kindof reserved pfuel s p (dflt lb (lbl s c)) (dflt sn (strictof p))) as [l'|e] eqn:Hu;
-      [|right; reflexivity].
-    destruct (has_slash l') eqn:Hs; [right; reflexivity|].
+    destruct (already_here s p c (dflt lb (lbl s c))) as [[|]|e] eqn:Hah; [exact I | | reflexivity].
+    destruct (UL s p (dflt lb (lbl s c)) (dflt sn (strictof p))) as [l'|e] eqn:Hu; [|reflexivity].
+    destruct (has_slash l') eqn:Hs; [reflexivity|].
     destruct (in_dir_false _ _ _ (unique_label_fresh _ _ _ _ _ Hu)) as [Rs Fr].
-    cbn [oeqb]. rewrite Nat.eqb_refl.
     destruct (String.eqb_spec l' (lbl s c)) as [E|Dl].
     { exfalso. apply Fr. rewrite E. change (lbl s c) with (fst (lbl s c, c)). now apply in_map. }
     assert (Hm : val_mem c (kids s p) = true) by (apply val_mem_true; now exists (lbl s c)).
     rewrite Hm. cbn [negb andb]. cbn [lbl par kids strt set_lbl set_par set_kids set_strt]. rewrite Nat.eqb_refl.
     assert (Hput : bd_put l' c (val_pop c (kids s p)) = inl (val_pop c (kids s p) ++ [(l', c)])).
-    { unfold bd_put.
-      assert (Hk : key_get l' (val_pop c (kids s p)) = None).
-      { apply key_get_None. intros H. apply Fr. now apply (map_fst_val_pop c). }
-      assert (Hv : val_key c (val_pop c (kids s p)) = None).
-      { pose proof (val_mem_val_pop c _ NDv) as H. unfold val_mem in H. now destruct (val_key c (val_pop c (kids s p))). }
-      now rewrite Hk, Hv. }
+    { apply put_fresh.
+      - intros H. apply Fr. now apply (map_fst_val_pop c).
+      - intros k H. apply val_pop_In in H; [|assumption]. destruct H as [_ H]. now apply H. }
     rewrite Hput.
-    destruct f as [|f]; [apply post_rec; reflexivity|].
-    rewrite sp_S. unfold sp_body. rewrite (wf_of_par s c p I Hc).
+    rewrite sp_S. unfold sp_body. rewrite Wc.
     cbn [lbl par kids strt set_lbl set_par set_kids set_strt]. rewrite Hc. cbn [oeqb]. rewrite Nat.eqb_refl.
     unfold post. cbn [fst snd].
     apply Inv_same with (relabel s p c l'); [|now apply inv_relabel with (lbl s c)].
     unfold relabel, same; cbn. repeat split; intros n; try reflexivity.
     destruct (Nat.eqb_spec n p); reflexivity.
   - (* c is an orphan *)
-    cbn [oeqb andb] in Hr.
-    destruct (unique_label kindof reserved pfuel s p (dflt lb (lbl s c)) (dflt sn (strictof p))) as [l'|e] eqn:Hu.
-    2:{ ac_unf f. rewrite Hcy, Hc.
+    pose proof (inv_orphan_unlisted s c I Hc) as Un.
+    destruct (UL s p (dflt lb (lbl s c)) (dflt sn (strictof p))) as [l'|e] eqn:Hu.
+    2:{ rewrite ac_S; unfold ac_body. rewrite Wc, Hcy, Hc.
         change (match lb with Some l => l | None => lbl s c end) with (dflt lb (lbl s c)).
         change (match sn with Some b => b | None => strictof p end) with (dflt sn (strictof p)).
-        rewrite (already_here_unlisted s p c _ I (inv_orphan_unlisted s c I Hc p)), Hu. right; reflexivity. }
+        rewrite (already_here_unlisted s p c _ I (Un p)), Hu. reflexivity. }
     destruct (has_slash l') eqn:Hs.
-    { ac_unf f. rewrite Hcy, Hc.
+    { rewrite ac_S; unfold ac_body. rewrite Wc, Hcy, Hc.
       change (match lb with Some l => l | None => lbl s c end) with (dflt lb (lbl s c)).
       change (match sn with Some b => b | None => strictof p end) with (dflt sn (strictof p)).
-      rewrite (already_here_unlisted s p c _ I (inv_orphan_unlisted s c I Hc p)), Hu, Hs. right; reflexivity. }
-    destruct (cyclic_none _ _ _ _ Hcy) as (Dpc & NA & pp & pc & Hp & _ & _).
-    rewrite Hp in Hr.
+      rewrite (already_here_unlisted s p c _ I (Un p)), Hu, Hs. reflexivity. }
+    destruct (cyclic_none _ _ _ _ Hcy) as (Dpc & NA).
     destruct (in_dir_false _ _ _ (unique_label_fresh _ _ _ _ _ Hu)) as [Rs Fr].
-    destruct (ac_orphan s p c lb sn l' pp f I Cp Wc Hc Hcy Hu Hs Hp Hr) as [H|H]; [now apply post_rec|].
-    rewrite H. unfold post; cbn [fst snd].
+    rewrite (ac_orphan s p c lb sn l' f I Cp Wc Hc Hcy Hu Hs).
+    unfold post; cbn [fst snd].
     apply inv_attach; try assumption.
     + now apply is_wf_false_not_wf.
     + now apply is_comp_not_leaf.
     + intros [E|A]; [congruence | contradiction].
 Qed.
 
-Lemma sp_none_top s c f : INV s -> post s (SP f s c None).
+Lemma sp_none_top s c f : INV s -> 3 <= f -> post s (SP f s c None).
 Proof.
-  intros I. destruct f as [|f]; [apply post_rec; reflexivity|].
+  intros I Hf. destruct f as [|[|[|f]]]; try (exfalso; lia). clear Hf.
   rewrite sp_S. unfold sp_body. destruct (is_wf kindof c); [exact I|].
   destruct (par s c) as [o|] eqn:Hc; cbn [oeqb]; [|exact I].
   assert (Hin : In (lbl s c, c) (kids s o)) by (apply (inv_agree _ _ _ I); now split).
   assert (Hm : val_mem c (kids s o) = true) by (apply val_mem_true; now exists (lbl s c)).
-  rewrite Hm.
-  destruct (rc_listed s o _ c f I Hin) as [H|H].
-  - destruct (RC f s o (inr c)) as [s1 r1]. simpl in H. destruct r1 as [|[]|]; try discriminate.
-    apply post_rec; reflexivity.
-  - rewrite H. unfold post; cbn [fst snd].
-    apply Inv_same with (detach s o c); [|now apply inv_detach with (lbl s c)].
-    unfold detach, same; cbn. repeat split; intros n; try reflexivity.
-    destruct (Nat.eqb_spec n c); reflexivity.
+  rewrite cyclic_root, Hm, (rc_listed s o _ c f I Hin).
+  unfold post; cbn [fst snd].
+  apply Inv_same with (detach s o c); [|now apply inv_detach with (lbl s c)].
+  unfold detach, same; cbn. repeat split; intros n; try reflexivity.
+  destruct (Nat.eqb_spec n c); reflexivity.
 Qed.
 
-Lemma rc_top s p x f : INV s -> post s (RC f s p x).
+Lemma rc_top s p x f : INV s -> 2 <= f -> post s (RC f s p x).
 Proof.
-  intros I.
-  assert (G : forall c, post s (RC f s p (inr c))).
+  intros I Hf. destruct f as [|[|f]]; try (exfalso; lia). clear Hf.
+  assert (G : forall c, post s (RC (S (S f)) s p (inr c))).
   { intros c. destruct (val_mem c (kids s p)) eqn:Hm.
     - apply val_mem_true in Hm. destruct Hm as [k Hin].
-      destruct (rc_listed s p k c f I Hin) as [H|H]; [now apply post_rec|].
-      rewrite H. unfold post; cbn [fst snd]. now apply inv_detach with k.
-    - destruct f as [|f]; [apply post_rec; reflexivity|].
-      rewrite rc_S. unfold rc_body. rewrite Hm. right; reflexivity. }
+      rewrite (rc_listed s p k c f I Hin). unfold post; cbn [fst snd]. now apply inv_detach with k.
+    - rewrite rc_S. unfold rc_body. rewrite Hm. reflexivity. }
   destruct x as [l|c]; [|apply G].
   destruct (key_get l (kids s p)) as [c|] eqn:Hk.
-  - assert (E : RC f s p (inl l) = RC f s p (inr c)).
-    { destruct f as [|f]; [reflexivity|]. rewrite !rc_S. unfold rc_body. rewrite Hk.
+  - assert (E : RC (S (S f)) s p (inl l) = RC (S (S f)) s p (inr c)).
+    { rewrite !rc_S. unfold rc_body. rewrite Hk.
       pose proof (key_get_In _ _ _ Hk) as Hin.
       assert (Hm : val_mem c (kids s p) = true) by (apply val_mem_true; now exists l).
       rewrite Hm.
       destruct (key_pop_val_pop l c (kids s p) (inv_keys _ _ _ I p) Hin) as [->|H]; [reflexivity|].
       exfalso; apply H. now apply inv_vals. }
     rewrite E. apply G.
-  - destruct f as [|f]; [apply post_rec; reflexivity|].
-    rewrite rc_S. unfold rc_body. rewrite Hk. right; reflexivity.
+  - rewrite rc_S. unfold rc_body. rewrite Hk. reflexivity.
 Qed.
 
 (* ---- parent assignment: c.parent = q ---------------------------------------------------------- *)
-Definition post_assign (s : state) (c q : nat) (x : state * result) : Prop :=
-  match snd x with
-  | Ok => INV (fst x)
-  | Skip => False
-  | Err e => e = ERecursion \/ risky_assign kindof reserved s c q = true \/ fst x = s
-  end.
-
-Section Tail.
-Variables (s1 : state) (c q : nat) (pp : string).
-Hypothesis I1 : INV s1.
-Hypothesis Hc1 : par s1 c = None.
-Hypothesis Wc : is_wf kindof c = false.
-Hypothesis Cq : is_comp kindof q = true.
-Hypothesis Dqc : q <> c.
-Hypothesis NA1 : ~ anc s1 c q.
-Hypothesis Hp1 : path pfuel s1 q = Some pp.
-
-Let s2 := set_par s1 c (Some q).
-
-Lemma tail_path : forall g, path g s2 q = path g s1 q.
+(* the tail q.add_child(c) once c has been released and names q as its parent *)
+Lemma assign_tail s1 c q l' f :
+  INV s1 -> par s1 c = None -> is_wf kindof c = false -> is_comp kindof q = true ->
+  CYC s1 (Some q) c = None -> UL s1 q (lbl s1 c) (strictof q) = inl l' ->
+  let s2 := set_par s1 c (Some q) in
+  let s3 := set_kids (set_lbl s2 c l') q (kids s1 q ++ [(l', c)]) in
+  AC (S (S f)) s2 q c None None = (s3, Ok) /\ INV s3.
 Proof.
-  intros g. apply path_ext_off with c; [|intros [E|A]; [congruence | contradiction]].
-  intros m D. unfold s2; cbn. now destruct (Nat.eqb_spec m c).
-Qed.
-
-Lemma tail_unlisted : forall k, ~ In (k, c) (kids s1 q).
-Proof. intros k. apply (inv_orphan_unlisted s1 c I1 Hc1). Qed.
-
-Lemma assign_tail_ok f : in_dir kindof reserved s1 q (lbl s1 c) = false ->
-  is_rec (snd (AC f s2 q c None None)) = true \/
-  AC f s2 q c None None = (set_kids (set_lbl s2 c (lbl s1 c)) q (kids s1 q ++ [(lbl s1 c, c)]), Ok).
-Proof.
-  intros Hd. destruct (in_dir_false _ _ _ Hd) as [Rs Fr].
+  intros I1 Hc1 Wc Cq Hcy Hu s2 s3.
+  pose proof (inv_orphan_unlisted s1 c I1 Hc1) as Un.
+  destruct (cyclic_none _ _ _ _ Hcy) as (Dqc & NA).
+  destruct (in_dir_false _ _ _ (unique_label_fresh _ _ _ _ _ Hu)) as [Rs Fr].
+  pose proof (unique_label_slash _ _ _ _ _ Hu (inv_slash _ _ _ I1 c)) as Hs.
   assert (H2c : par s2 c = Some q) by (unfold s2; cbn; now rewrite Nat.eqb_refl).
-  destruct f as [|f]; [left; reflexivity|].
-  rewrite ac_S. unfold ac_body.
-  destruct (cyc_child pfuel s1 s2 q c pp tail_path H2c Dqc Hp1) as [Ec|Ec]; rewrite Ec; [|left; reflexivity].
-  rewrite H2c, Nat.eqb_refl. cbn [negb].
-  change (lbl s2 c) with (lbl s1 c).
-  change (already_here s2 q c (lbl s1 c)) with (already_here s1 q c (lbl s1 c)).
-  rewrite (already_here_unlisted s1 q c _ I1 tail_unlisted).
-  assert (Hu : unique_label kindof reserved pfuel s2 q (lbl s1 c) (strictof q) = inl (lbl s1 c)).
-  { unfold unique_label. change (in_dir kindof reserved s2 q (lbl s1 c)) with (in_dir kindof reserved s1 q (lbl s1 c)).
-    now rewrite Hd. }
-  rewrite Hu, (inv_slash _ _ _ I1 c). cbn [oeqb]. rewrite Nat.eqb_refl, String.eqb_refl. cbn [negb andb].
-  change (kids (set_lbl s2 c (lbl s1 c)) q) with (kids s1 q).
-  assert (Hput : bd_put (lbl s1 c) c (kids s1 q) = inl (kids s1 q ++ [(lbl s1 c, c)])).
-  { unfold bd_put. rewrite (proj2 (key_get_None _ (kids s1 q)) Fr).
-    assert (Hv : val_key c (kids s1 q) = None).
-    { apply val_key_None. intros H. apply in_map_iff in H. destruct H as [[k v] [E H]]. simpl in E; subst v.
-      now apply tail_unlisted in H. }
-    now rewrite Hv. }
-  rewrite Hput.
-  destruct f as [|f]; [left; reflexivity|].
-  rewrite sp_S. unfold sp_body. rewrite Wc.
-  cbn [lbl par kids strt set_lbl set_par set_kids set_strt]. unfold s2; cbn [par set_par].
-  rewrite Nat.eqb_refl. cbn [oeqb]. rewrite Nat.eqb_refl. right; reflexivity.
+  split.
+  - rewrite ac_S. unfold ac_body. rewrite Wc.
+    rewrite (cyclic_ext pfuel s1 s2 q c).
+    2:{ intros m A. unfold s2; cbn. destruct (Nat.eqb_spec m c) as [->|]; [|reflexivity].
+        exfalso. destruct A as [E|A]; [congruence | contradiction]. }
+    rewrite Hcy, H2c, Nat.eqb_refl. cbn [negb].
+    change (lbl s2 c) with (lbl s1 c).
+    change (already_here s2 q c (lbl s1 c)) with (already_here s1 q c (lbl s1 c)).
+    rewrite (already_here_unlisted s1 q c _ I1 (Un q)).
+    rewrite (unique_label_ext s1 s2 q) by reflexivity. rewrite Hu, Hs.
+    change (kids s2 q) with (kids s1 q). rewrite (unlisted_val_mem c _ (Un q)). cbn [andb].
+    change (kids (set_lbl s2 c l') q) with (kids s1 q).
+    rewrite (put_fresh l' c (kids s1 q) Fr (Un q)).
+    rewrite sp_S. unfold sp_body. rewrite Wc.
+    cbn [lbl par kids strt set_lbl set_par set_kids set_strt]. unfold s2; cbn [par set_par].
+    rewrite Nat.eqb_refl. cbn [oeqb]. rewrite Nat.eqb_refl. reflexivity.
+  - apply Inv_same with (attach s1 q c l').
+    + unfold attach, same, s3, s2; cbn. repeat split; intros n; reflexivity.
+    + apply inv_attach; try assumption.
+      * now apply is_wf_false_not_wf.
+      * now apply is_comp_not_leaf.
+      * intros [E|A]; [congruence | contradiction].
 Qed.
 
-Lemma assign_tail_err f : in_dir kindof reserved s1 q (lbl s1 c) = true ->
-  exists s' e, AC f s2 q c None None = (s', Err e).
+Lemma sp_some_top s c q f : INV s -> 4 <= f -> post s (SP f s c (Some q)).
 Proof.
-  intros Hd.
-  assert (H2c : par s2 c = Some q) by (unfold s2; cbn; now rewrite Nat.eqb_refl).
-  destruct f as [|f]; [now eexists; eexists|].
-  rewrite ac_S. unfold ac_body.
-  destruct (CYC s2 q c); [now eexists; eexists|].
-  rewrite H2c, Nat.eqb_refl. cbn [negb].
-  change (lbl s2 c) with (lbl s1 c).
-  change (already_here s2 q c (lbl s1 c)) with (already_here s1 q c (lbl s1 c)).
-  rewrite (already_here_unlisted s1 q c _ I1 tail_unlisted).
-  unfold unique_label. change (in_dir kindof reserved s2 q (lbl s1 c)) with (in_dir kindof reserved s1 q (lbl s1 c)).
-  rewrite Hd.
-  destruct (mems (lbl s1 c) (child_labels s2 q)); [|now eexists; eexists].
-  destruct (strictof q); [now eexists; eexists|].
-  destruct (suffix kindof reserved pfuel s2 q (lbl s1 c) 0 (lbl s1 c)) as [l'|] eqn:Es; [|now eexists; eexists].
-  apply suffix_fresh in Es. change (in_dir kindof reserved s2 q l') with (in_dir kindof reserved s1 q l') in Es.
-  destruct (has_slash l'); [now eexists; eexists|].
-  cbn [oeqb]. rewrite Nat.eqb_refl.
-  destruct (String.eqb_spec l' (lbl s1 c)) as [E|D]; [congruence|]. cbn [negb andb].
-  change (kids s2 q) with (kids s1 q).
-  assert (Hv : val_mem c (kids s1 q) = false).
-  { apply val_mem_false. intros H. apply in_map_iff in H. destruct H as [[k v] [E H]]. simpl in E; subst v.
-    now apply tail_unlisted in H. }
-  rewrite Hv. cbn [negb]. now eexists; eexists.
-Qed.
-
-Lemma assign_tail_inv : in_dir kindof reserved s1 q (lbl s1 c) = false ->
-  INV (set_kids (set_lbl s2 c (lbl s1 c)) q (kids s1 q ++ [(lbl s1 c, c)])).
-Proof.
-  intros Hd. destruct (in_dir_false _ _ _ Hd) as [Rs Fr].
-  apply Inv_same with (attach s1 q c (lbl s1 c)).
-  - unfold attach, same, s2; cbn. repeat split; intros n; reflexivity.
-  - apply inv_attach; try assumption.
-    + now apply is_wf_false_not_wf.
-    + now apply is_comp_not_leaf.
-    + intros [E|A]; [congruence | contradiction].
-    + apply (inv_slash _ _ _ I1).
-Qed.
-End Tail.
-
-Lemma sp_some_top s c q f : INV s -> post_assign s c q (SP f s c (Some q)).
-Proof.
-  intros I. unfold post_assign.
-  destruct f as [|f]; [left; reflexivity|].
+  intros I Hf. destruct f as [|[|[|[|f]]]]; try (exfalso; lia). clear Hf.
   rewrite sp_S. unfold sp_body.
-  destruct (is_wf kindof c) eqn:Wc; [right; right; reflexivity|].
+  destruct (is_wf kindof c) eqn:Wc; [reflexivity|].
   destruct (oeqb (Some q) (par s c)) eqn:Hq; [exact I|].
-  destruct (is_comp kindof q) eqn:Cq; cbn [negb]; [|right; right; reflexivity].
-  destruct (CYC s q c) as [e|] eqn:Hcy; [right; right; reflexivity|].
-  destruct (cyclic_none _ _ _ _ Hcy) as (Dqc & NA & pp & pc & Hp & _ & _).
+  destruct (is_comp kindof q) eqn:Cq; cbn [negb]; [|reflexivity].
+  destruct (CYC s (Some q) c) as [e|] eqn:Hcy; [reflexivity|].
+  destruct (cyclic_none _ _ _ _ Hcy) as (Dqc & NA).
+  assert (Hnq : par s c <> Some q) by (intros E; rewrite E in Hq; cbn in Hq; now rewrite Nat.eqb_refl in Hq).
+  assert (Unq : forall k, ~ In (k, c) (kids s q)).
+  { intros k H. apply (inv_agree _ _ _ I) in H. now destruct H. }
+  rewrite (unlisted_val_mem c _ Unq).
+  destruct (UL s q (lbl s c) (strictof q)) as [l'|e] eqn:Hu; [|reflexivity].
   (* the state after the release from the old parent *)
   assert (REL : forall s1, INV s1 -> par s1 c = None ->
-            (forall m, m <> c -> par s1 m = par s m /\ lbl s1 m = lbl s m) -> lbl s1 c = lbl s c ->
+            (forall m, m <> c -> par s1 m = par s m) -> (forall n, lbl s1 n = lbl s n) ->
             kids s1 q = kids s q ->
-            match snd (AC f (set_par s1 c (Some q)) q c None None) with
-            | Ok => INV (fst (AC f (set_par s1 c (Some q)) q c None None))
-            | Skip => False
-            | Err e => e = ERecursion \/ risky_assign kindof reserved s c q = true \/
-                       fst (AC f (set_par s1 c (Some q)) q c None None) = s
-            end).
+            post s (AC (S (S (S f))) (set_par s1 c (Some q)) q c None None)).
   { intros s1 I1 Hc1 Hoff Hl1 Hk1.
-    assert (NA1 : ~ anc s1 c q).
-    { intros A. apply NA. apply (anc_transport s s1 c); [intros m D; now apply Hoff | assumption | assumption]. }
-    assert (Hp1 : path pfuel s1 q = Some pp).
-    { rewrite <- Hp. apply path_ext_off with c; [assumption|]. intros [E|A]; [congruence | contradiction]. }
-    assert (Hd1 : in_dir kindof reserved s1 q (lbl s1 c) = in_dir kindof reserved s q (lbl s c)).
-    { unfold in_dir. now rewrite Hk1, Hl1. }
-    destruct (in_dir kindof reserved s q (lbl s c)) eqn:Hd.
-    - destruct (assign_tail_err s1 c q I1 Hc1 Wc Cq f Hd1) as (s' & e & E). rewrite E. cbn [fst snd].
-      right; left. unfold risky_assign. now rewrite Wc, Hq, Hd.
-    - destruct (assign_tail_ok s1 c q pp I1 Hc1 Wc Dqc NA1 Hp1 f Hd1) as [H|H].
-      + destruct (AC f (set_par s1 c (Some q)) q c None None) as [s' r']. cbn [fst snd] in *.
-        destruct r' as [|[]|]; try discriminate. now left.
-      + rewrite H. cbn [fst snd]. exact (assign_tail_inv s1 c q I1 Hc1 Wc Cq Dqc NA1 Hd1). }
+    assert (Hcy1 : CYC s1 (Some q) c = None).
+    { rewrite (cyclic_ext pfuel s s1 q c); [assumption|].
+      intros m A. apply Hoff. intros ->. destruct A as [E|A]; [congruence | contradiction]. }
+    assert (Hu1 : UL s1 q (lbl s1 c) (strictof q) = inl l').
+    { rewrite (unique_label_ext s s1 q _ _ Hk1 Hl1), Hl1. exact Hu. }
+    destruct (assign_tail s1 c q l' (S f) I1 Hc1 Wc Cq Hcy1 Hu1) as [E I3].
+    rewrite E. exact I3. }
   destruct (par s c) as [o|] eqn:Hc.
   - assert (Hin : In (lbl s c, c) (kids s o)) by (apply (inv_agree _ _ _ I); now split).
     assert (Hm : val_mem c (kids s o) = true) by (apply val_mem_true; now exists (lbl s c)).
-    rewrite Hm.
-    destruct (rc_listed s o _ c f I Hin) as [H|H].
-    + destruct (RC f s o (inr c)) as [s1 r1]. simpl in H. destruct r1 as [|[]|]; try discriminate.
-      cbn [snd]. now left.
-    + rewrite H.
-      assert (Dqo : q <> o) by (intros ->; cbn in Hq; now rewrite Nat.eqb_refl in Hq).
-      apply REL.
-      * now apply inv_detach with (lbl s c).
-      * unfold detach; cbn. now rewrite Nat.eqb_refl.
-      * intros m D. unfold detach; cbn. now destruct (Nat.eqb_spec m c).
-      * reflexivity.
-      * unfold detach; cbn. now destruct (Nat.eqb_spec q o).
-  - apply REL; try assumption; try reflexivity. intros m D; now split.
+    rewrite Hm, (rc_listed s o _ c (S f) I Hin).
+    assert (Dqo : q <> o) by congruence.
+    apply REL.
+    + now apply inv_detach with (lbl s c).
+    + unfold detach; cbn. now rewrite Nat.eqb_refl.
+    + intros m D. unfold detach; cbn. now destruct (Nat.eqb_spec m c).
+    + reflexivity.
+    + unfold detach; cbn. now destruct (Nat.eqb_spec q o).
+  - apply REL; try assumption; reflexivity.
 Qed.
 
-Lemma oeqb_eq a b : oeqb a b = true -> a = b.
-Proof. destruct a, b; simpl; try discriminate; [intros H; apply Nat.eqb_eq in H; now subst | reflexivity]. Qed.
-
-Lemma rp_top s p x r f : INV s -> is_comp kindof p = true ->
-  (match (match x with inl l => key_get l (kids s p) | inr o => Some o end) with
-   | Some o => risky_replace kindof pfuel s p o r
-   | None => false
-   end) = false ->
-  post s (RP f s p x r).
+Lemma rp_top s p x r f : INV s -> is_comp kindof p = true -> 3 <= f -> post s (RP f s p x r).
 Proof.
-  intros I Cp Hr. unfold rp.
-  destruct (match x with inl l => key_get l (kids s p) | inr o => Some o end) as [o|]; [|right; reflexivity].
-  destruct (oeqb (par s o) (Some p)) eqn:Ho; cbn [negb]; [|right; reflexivity].
-  destruct (oeqb (par s r) None) eqn:Hrp; cbn [negb]; [|right; reflexivity].
+  intros I Cp Hf. destruct f as [|[|[|f]]]; try (exfalso; lia). clear Hf. unfold rp.
+  destruct (match x with inl l => key_get l (kids s p) | inr o => Some o end) as [o|]; [|reflexivity].
+  destruct (oeqb (par s o) (Some p)) eqn:Ho; cbn [negb]; [|reflexivity].
+  destruct (oeqb (par s r) None) eqn:Hrp; cbn [negb]; [|reflexivity].
   apply oeqb_eq in Ho, Hrp.
-  unfold risky_replace in Hr. apply orb_false_iff in Hr. destruct Hr as [Hr Hx].
-  apply orb_false_iff in Hr. destruct Hr as [Wr Hcy].
-  destruct (CYC s p r) as [e|] eqn:Ecy; [discriminate|]. clear Hcy.
-  destruct (cyclic_none _ _ _ _ Ecy) as (Dpr & NA & pp & pr & Hp & _ & _).
-  rewrite Hp in Hx.
+  destruct (is_wf kindof r) eqn:Wr; [reflexivity|].
+  destruct (CYC s (Some p) r) as [e|] eqn:Ecy; [reflexivity|].
+  destruct (cyclic_none _ _ _ _ Ecy) as (Dpr & NA).
   assert (Dro : r <> o) by (intros ->; congruence).
   assert (Hin : In (lbl s o, o) (kids s p)) by (apply (inv_agree _ _ _ I); now split).
   pose proof (inv_vals s p I) as NDv.
-  destruct (rc_listed s p _ o f I Hin) as [H|H].
-  { destruct (RC f s p (inr o)) as [s1 r1]. simpl in H. destruct r1 as [|[]|]; try discriminate.
-    apply post_rec; reflexivity. }
-  rewrite H. cbv beta iota zeta.
+  rewrite (rc_listed s p _ o (S f) I Hin). cbv beta iota zeta.
   set (s1 := detach s p o).
   assert (I1 : INV s1) by (now apply inv_detach with (lbl s o)).
   assert (H1r : par s1 r = None).
@@ -1019,29 +890,21 @@ Proof.
   assert (H2r : par s2 r = None) by exact H1r.
   assert (H2l : lbl s2 r = lbl s o).
   { unfold s2; cbn. destruct (Nat.eqb_spec r o); [contradiction | now rewrite Nat.eqb_refl]. }
-  assert (Hpath : forall g, path g s2 p = path g s p).
-  { intros g. apply path_ext. intros m A.
-    assert (m <> o) by (intros ->; now apply (inv_child_not_aos s p _ o I Hin)).
-    assert (m <> r) by (intros ->; destruct A as [E|A]; [congruence | contradiction]).
-    unfold s2, s1, detach; cbn.
-    destruct (Nat.eqb_spec m o); [contradiction|]. destruct (Nat.eqb_spec m r); [contradiction|]. now split. }
-  assert (Hcy2 : CYC s2 p r = None).
-  { apply cyc_orphan with s pp; try assumption. now rewrite H2l. }
+  assert (Hcy2 : CYC s2 (Some p) r = None).
+  { rewrite (cyclic_ext pfuel s s2 p r); [assumption|].
+    intros m A. unfold s2, s1, detach; cbn. destruct (Nat.eqb_spec m o) as [->|]; [|reflexivity].
+    exfalso. now apply (inv_child_not_aos s p _ o I Hin). }
   assert (Hk2 : kids s2 p = val_pop o (kids s p)).
   { unfold s2, s1, detach; cbn. now rewrite Nat.eqb_refl. }
   assert (Fr : ~ In (lbl s o) (map fst (kids s2 p))).
   { rewrite Hk2. apply key_not_in_val_pop; [apply (inv_keys _ _ _ I) | assumption | assumption]. }
   assert (Rs : reserved (kindof p) (lbl s o) = false) by (apply (inv_reserved _ _ _ I p _ o Hin)).
-  assert (Hu : unique_label kindof reserved pfuel s2 p (dflt None (lbl s2 r)) (dflt None (strictof p)) = inl (lbl s o)).
+  assert (Hu : UL s2 p (dflt None (lbl s2 r)) (dflt None (strictof p)) = inl (lbl s o)).
   { unfold unique_label, dflt. rewrite H2l. unfold in_dir. rewrite Rs.
     destruct (key_mem (lbl s o) (kids s2 p)) eqn:E; [apply key_mem_true in E; contradiction | reflexivity]. }
-  assert (Hp2 : path pfuel s2 p = Some pp) by (now rewrite Hpath).
-  destruct (ac_orphan s2 p r None None (lbl s o) pp f I2 Cp Wr H2r Hcy2 Hu (inv_slash _ _ _ I o) Hp2 Hx) as [H3|H3].
-  { destruct (AC f s2 p r None None) as [s3 r3]. simpl in H3. destruct r3 as [|[]|]; try discriminate.
-    apply post_rec; reflexivity. }
-  rewrite H3.
+  rewrite (ac_orphan s2 p r None None (lbl s o) f I2 Cp Wr H2r Hcy2 Hu (inv_slash _ _ _ I o)).
   assert (I3 : INV (attach s2 p r (lbl s o))).
-  { destruct (cyclic_none _ _ _ _ Hcy2) as (_ & NA2 & _).
+  { destruct (cyclic_none _ _ _ _ Hcy2) as (_ & NA2).
     apply inv_attach; try assumption.
     - now apply is_wf_false_not_wf.
     - now apply is_comp_not_leaf.
@@ -1058,43 +921,35 @@ Qed.
 
 (* ---- every operation ----------------------------------------------------------------------------- *)
 Notation STEP := (step kindof strictof reserved N pfuel).
-Notation RISKY := (risky kindof strictof reserved pfuel).
 
-Lemma post_of_assign s c q x : risky_assign kindof reserved s c q = false -> post_assign s c q x -> post s x.
+Lemma step_post s o f : INV s -> 4 <= f -> post s (STEP f s o).
 Proof.
-  unfold post_assign, post. intros Hr. destruct (snd x) as [|e|]; [auto | | contradiction].
-  intros [H|[H|H]]; [now left | congruence | now right].
-Qed.
-
-Lemma step_post s o f : INV s -> RISKY s o = false -> post s (STEP f s o).
-Proof.
-  intros I Hr. destruct o as [p c lb sn | p k c | c l p | c np | p c | p l | p o r | p l r | p c]; cbn [step risky] in *.
-  - destruct (is_comp kindof p) eqn:Cp; [|reflexivity]. now apply ac_top.
-  - destruct (is_comp kindof p) eqn:Cp; cbn [negb andb] in *; [|reflexivity].
-    destruct (is_comp kindof c && String.eqb k "parent") eqn:E1.
-    { apply post_of_assign with p c; [assumption | now apply sp_some_top]. }
-    destruct (is_comp kindof c && String.eqb k "_parent") eqn:E2; [reflexivity|].
-    now apply (ac_top s p c (Some k) None).
+  intros I Hf. destruct o as [p c lb sn | p k c | c l p | c np | p c | p l | p o r | p l r | p c]; cbn [step].
+  - destruct (is_comp kindof p) eqn:Cp; [|reflexivity]. apply ac_top; [assumption | assumption | lia].
+  - destruct (is_comp kindof p) eqn:Cp; cbn [negb]; [|reflexivity].
+    destruct (is_comp kindof c && String.eqb k "parent"); [now apply sp_some_top|].
+    destruct (is_comp kindof c && String.eqb k "_parent"); [reflexivity|].
+    apply ac_top; [assumption | assumption | lia].
   - destruct (fresh_ok kindof N s c && negb (p =? c) && negb (is_comp kindof c && negb (is_comp kindof p))) eqn:Fo;
       [|reflexivity].
-    destruct (has_slash l) eqn:Sl; [right; reflexivity|].
+    destruct (has_slash l) eqn:Sl; [reflexivity|].
     apply andb_true_iff in Fo. destruct Fo as [Fo _].
     apply andb_true_iff in Fo. destruct Fo as [Fo _]. unfold fresh_ok in Fo.
     apply andb_true_iff in Fo. destruct Fo as [Fo _]. apply andb_true_iff in Fo. destruct Fo as [Fo _].
     apply andb_true_iff in Fo. destruct Fo as [Fo _]. apply andb_true_iff in Fo. destruct Fo as [_ Hc].
     apply oeqb_eq in Hc.
     assert (I1 : INV (set_lbl s c l)) by (now apply inv_set_lbl_orphan).
-    pose proof (sp_some_top (set_lbl s c l) c p f I1) as H. unfold post_assign in H.
+    pose proof (sp_some_top (set_lbl s c l) c p f I1 Hf) as H. unfold post in H.
     destruct (SP f (set_lbl s c l) c (Some p)) as [s1 r1]. cbn [fst snd] in H.
-    destruct r1 as [|e|]; [exact H | right; reflexivity | contradiction].
-  - destruct np as [q|]; [|now apply sp_none_top].
+    destruct r1 as [|e|]; [exact H | reflexivity | reflexivity].
+  - destruct np as [q|]; [|apply sp_none_top; [assumption | lia]].
     destruct (is_comp kindof c && negb (is_comp kindof q)) eqn:E.
-    + apply andb_true_iff in E. destruct E as [Cc _]. now apply (ac_top s c q (Some "parent"%string) None).
-    + apply post_of_assign with c q; [assumption | now apply sp_some_top].
-  - destruct (is_comp kindof p); [apply rc_top; assumption | reflexivity].
-  - destruct (is_comp kindof p); [apply rc_top; assumption | reflexivity].
-  - destruct (is_comp kindof p) eqn:Cp; [|reflexivity]. now apply rp_top.
-  - destruct (is_comp kindof p) eqn:Cp; [|reflexivity]. now apply rp_top.
+    + apply andb_true_iff in E. destruct E as [Cc _]. apply ac_top; [assumption | assumption | lia].
+    + now apply sp_some_top.
+  - destruct (is_comp kindof p); [apply rc_top; [assumption | lia] | reflexivity].
+  - destruct (is_comp kindof p); [apply rc_top; [assumption | lia] | reflexivity].
+  - destruct (is_comp kindof p) eqn:Cp; [|reflexivity]. apply rp_top; [assumption | assumption | lia].
+  - destruct (is_comp kindof p) eqn:Cp; [|reflexivity]. apply rp_top; [assumption | assumption | lia].
   - destruct (is_comp kindof p && val_mem c (kids s p) && negb (memn c (strt s p))) eqn:E; [|reflexivity].
     apply andb_true_iff in E. destruct E as [E E3]. apply andb_true_iff in E. destruct E as [_ E2].
     apply val_mem_true in E2. destruct E2 as [k Hk].
@@ -1102,29 +957,23 @@ Proof.
     intros H. apply memn_In in H. rewrite H in E3. discriminate.
 Qed.
 
-(* the invariant is preserved by every operation outside the guards (and within the fuel) *)
-Theorem step_inv s o f : INV s -> RISKY s o = false -> is_rec (snd (STEP f s o)) = false ->
-  INV (fst (STEP f s o)).
+(* the invariant is preserved by every operation, accepted or refused *)
+Theorem step_inv s o f : INV s -> 4 <= f -> INV (fst (STEP f s o)).
 Proof.
-  intros I Hr Hn. pose proof (step_post s o f I Hr) as H. unfold post in H.
-  destruct (snd (STEP f s o)) as [|e|]; [assumption | | now rewrite H].
-  destruct H as [H|H]; [subst e; discriminate | now rewrite H].
+  intros I Hf. pose proof (step_post s o f I Hf) as H. unfold post in H.
+  destruct (snd (STEP f s o)) as [|e|]; [assumption | now rewrite H | now rewrite H].
 Qed.
 
-(* a refused operation outside the guards changes nothing at all *)
-Theorem step_noop s o f s' e : INV s -> RISKY s o = false -> STEP f s o = (s', Err e) -> e <> ERecursion ->
-  s' = s.
+(* a refused operation changes nothing at all *)
+Theorem step_noop s o f s' e : INV s -> 4 <= f -> STEP f s o = (s', Err e) -> s' = s.
 Proof.
-  intros I Hr E Hn. pose proof (step_post s o f I Hr) as H. unfold post in H. rewrite E in H. cbn [fst snd] in H.
-  destruct H as [H|H]; [contradiction | assumption].
+  intros I Hf E. pose proof (step_post s o f I Hf) as H. unfold post in H. now rewrite E in H.
 Qed.
 
-Theorem run_inv f : forall ops s, INV s -> safe kindof strictof reserved N pfuel f s ops = true ->
-  INV (run kindof strictof reserved N pfuel f s ops).
+Theorem run_inv f : 4 <= f -> forall ops s, INV s -> INV (run kindof strictof reserved N pfuel f s ops).
 Proof.
-  induction ops as [|o r IH]; intros s I Hs; simpl in *; [assumption|].
-  apply andb_true_iff in Hs. destruct Hs as [Hs H3]. apply andb_true_iff in Hs. destruct Hs as [H1 H2].
-  apply negb_true_iff in H1, H2. apply IH; [|assumption]. now apply step_inv.
+  intros Hf. induction ops as [|o r IH]; intros s I; simpl; [assumption|].
+  apply IH. now apply step_inv.
 Qed.
 
 Lemma init_inv labels : (forall n, has_slash (labels n) = false) -> INV (init_state labels).
@@ -1143,98 +992,51 @@ Proof.
 Qed.
 End Proofs.
 
-(* ---- the guards are needed: witnesses (found by the correspondence check on the real code) ----- *)
+(* ---- concrete histories ------------------------------------------------------------------------ *)
 Definition nores (k : kind) (l : string) : bool := false.
 Definition kinds_of (ks : list kind) (n : nat) : kind := nth n ks Leaf.
 Definition labels_of (ls : list string) (n : nat) : string := nth n ls ""%string.
 Definition all_strict (n : nat) : bool := true.
 
-Definition bad_agree (kindof : nat -> kind) (s : state) : Prop :=
-  exists p k c, ~ (In (k, c) (kids s p) <-> (par s c = Some p /\ lbl s c = k)).
-
-Lemma bad_agree_not_inv kindof reserved s : bad_agree kindof s -> ~ Inv kindof reserved s.
-Proof. intros (p & k & c & H) I. apply H. apply (inv_agree _ _ _ I). Qed.
-
-(* K1: c.parent = q where q already has a child labelled like c *)
+(* the four situations in which the code violated the property before the fix commits
+   (K1..K4 of the first round): now refused before anything is touched *)
 Definition k1_kinds := kinds_of [Wf; Wf; Leaf; Leaf].
 Definition k1_labels := labels_of ["p"; "q"; "a"; "a"]%string.
 Definition k1_ops := [AddChild 0 2 None None; AddChild 1 3 None None; SetParent 2 (Some 1)].
-
-Lemma k1_refuted :
-  (forall n, has_slash (k1_labels n) = false) /\
-  let s := run k1_kinds all_strict nores 4 10 10 (init_state k1_labels) k1_ops in
-  snd (step k1_kinds all_strict nores 4 10 10
-         (run k1_kinds all_strict nores 4 10 10 (init_state k1_labels) (firstn 2 k1_ops)) (SetParent 2 (Some 1)))
-    = Err EAttribute /\
-  par s 2 = Some 1 /\ kids s 1 = [("a"%string, 3)] /\ kids s 0 = [] /\
-  ~ Inv k1_kinds nores s.
-Proof.
-  split; [intros n; do 5 (destruct n as [|n]; [reflexivity|]); reflexivity|].
-  cbv zeta. repeat split; try (vm_compute; reflexivity).
-  apply bad_agree_not_inv. exists 1, "a"%string, 2. vm_compute.
-  intros [_ H]. destruct (H (conj eq_refl eq_refl)) as [E|[]]. discriminate E.
-Qed.
-
-(* K2: a workflow offered as a child *)
 Definition k2_kinds := kinds_of [Macro; Wf].
 Definition k2_labels := labels_of ["m"; "w"]%string.
 Definition k2_ops := [AddChild 0 1 None None].
-
-Lemma k2_refuted :
-  (forall n, has_slash (k2_labels n) = false) /\
-  let s := run k2_kinds all_strict nores 2 10 10 (init_state k2_labels) k2_ops in
-  snd (step k2_kinds all_strict nores 2 10 10 (init_state k2_labels) (AddChild 0 1 None None)) = Err EParentMost /\
-  kids s 0 = [("w"%string, 1)] /\ par s 1 = None /\
-  ~ Inv k2_kinds nores s.
-Proof.
-  split; [intros n; do 3 (destruct n as [|n]; [reflexivity|]); reflexivity|].
-  cbv zeta. repeat split; try (vm_compute; reflexivity).
-  apply bad_agree_not_inv. exists 0, "w"%string, 1. vm_compute.
-  intros [H _]. destruct (H (or_introl eq_refl)) as [E _]. discriminate E.
-Qed.
-
-(* K4: an orphan is re-labelled on adoption to the label of the adopting composite's root *)
+Definition k3_kinds := kinds_of [Macro; Macro; Macro].
+Definition k3_labels := labels_of ["R"; "M"; "x"]%string.
+Definition k3_ops := [AddChild 0 1 None None; AddChild 1 2 None None; ReplaceI 1 2 0].
 Definition k4_kinds := kinds_of [Wf; Macro; Leaf].
 Definition k4_labels := labels_of ["a"; "m"; "x"]%string.
 Definition k4_ops := [AddChild 0 1 None None; AddChild 1 2 (Some "a"%string) None].
 
-Lemma k4_refuted :
-  (forall n, has_slash (k4_labels n) = false) /\
-  let s := run k4_kinds all_strict nores 3 10 10 (init_state k4_labels) k4_ops in
-  snd (step k4_kinds all_strict nores 3 10 10
-         (run k4_kinds all_strict nores 3 10 10 (init_state k4_labels) (firstn 1 k4_ops))
-         (AddChild 1 2 (Some "a"%string) None)) = Err ECyclic /\
-  kids s 1 = [("a"%string, 2)] /\ par s 2 = None /\ lbl s 2 = "a"%string /\
-  ~ Inv k4_kinds nores s.
-Proof.
-  split; [intros n; do 4 (destruct n as [|n]; [reflexivity|]); reflexivity|].
-  cbv zeta. repeat split; try (vm_compute; reflexivity).
-  apply bad_agree_not_inv. exists 1, "a"%string, 2. vm_compute.
-  intros [H _]. destruct (H (or_introl eq_refl)) as [E _]. discriminate E.
-Qed.
+Definition last_result kindof strictof res n (labels : nat -> string) (ops : list op) : result :=
+  snd (step kindof strictof res n 10 10
+         (run kindof strictof res n 10 10 (init_state labels) (removelast ops)) (last ops (SetStart 0 0))).
 
-(* K3: replace_child removes the child and swaps the labels before add_child refuses *)
-Definition k3_kinds := kinds_of [Macro; Macro; Macro].
-Definition k3_labels := labels_of ["R"; "M"; "x"]%string.
-Definition k3_ops := [AddChild 0 1 None None; AddChild 1 2 None None].
+Lemma former_findings :
+  (* K1: a.parent = q with a clash in q: refused, a stays in p *)
+  (let s := run k1_kinds all_strict nores 4 10 10 (init_state k1_labels) k1_ops in
+   last_result k1_kinds all_strict nores 4 k1_labels k1_ops = Err EAttribute /\
+   par s 2 = Some 0 /\ kids s 0 = [("a"%string, 2)] /\ kids s 1 = [("a"%string, 3)]) /\
+  (* K2: macro.add_child(workflow): refused, nothing listed *)
+  (let s := run k2_kinds all_strict nores 2 10 10 (init_state k2_labels) k2_ops in
+   last_result k2_kinds all_strict nores 2 k2_labels k2_ops = Err EParentMost /\ kids s 0 = []) /\
+  (* K3: M.replace_child(x, R) with R the root of M: refused, x stays, labels kept *)
+  (let s := run k3_kinds all_strict nores 3 10 10 (init_state k3_labels) k3_ops in
+   last_result k3_kinds all_strict nores 3 k3_labels k3_ops = Err ECyclic /\
+   kids s 1 = [("x"%string, 2)] /\ par s 2 = Some 1 /\ lbl s 0 = "R"%string) /\
+  (* K4: m (inside workflow "a") adopts x under the label "a": accepted, no false positive *)
+  (let s := run k4_kinds all_strict nores 3 10 10 (init_state k4_labels) k4_ops in
+   last_result k4_kinds all_strict nores 3 k4_labels k4_ops = Ok /\
+   kids s 1 = [("a"%string, 2)] /\ par s 2 = Some 1 /\ path 10 s 2 = Some "/a/m/a"%string).
+Proof. cbv zeta. repeat split; vm_compute; reflexivity. Qed.
 
-Lemma k3_refuted :
-  (forall n, has_slash (k3_labels n) = false) /\
-  let s := run k3_kinds all_strict nores 3 10 10 (init_state k3_labels) k3_ops in
-  let x := step k3_kinds all_strict nores 3 10 10 s (ReplaceI 1 2 0) in
-  Inv k3_kinds nores s /\ snd x = Err ECyclic /\
-  par s 2 = Some 1 /\ par (fst x) 2 = None /\ lbl s 0 = "R"%string /\ lbl (fst x) 0 = "x"%string /\ fst x <> s.
-Proof.
-  assert (L : forall n, has_slash (k3_labels n) = false)
-    by (intros n; do 4 (destruct n as [|n]; [reflexivity|]); reflexivity).
-  split; [exact L|]. cbv zeta.
-  split; [apply (run_inv k3_kinds all_strict nores 3 10 10 k3_ops (init_state k3_labels)); [apply init_inv; exact L | vm_compute; reflexivity]|].
-  repeat split; try (vm_compute; reflexivity).
-  intros E. apply (f_equal (fun s => par s 2)) in E. vm_compute in E. discriminate E.
-Qed.
-
-(* non-vacuity: a history with nesting, a move between parents, re-labelling, a replacement and
-   five refused operations lies within the guards *)
+(* a history with nesting, a move between parents, suffixing, re-labelling, a replacement and
+   five refused operations, and the tree it ends in *)
 Definition ex_kinds := kinds_of [Wf; Macro; Macro; Leaf; Leaf; Leaf; Wf].
 Definition ex_labels := labels_of ["w"; "m"; "n"; "a"; "a"; "b"; "v"]%string.
 Definition ex_strict (n : nat) : bool := negb (n =? 1).
@@ -1255,19 +1057,19 @@ Definition ex_ops :=
     ReplaceI 2 3 5;                         (* b takes a's place (and its starting status) *)
     AddChild 1 4 (Some "z"%string) None;    (* re-label through adoption *)
     RemoveL 1 "z";
+    SetParent 4 (Some 1);                   (* non-strict parent assignment: z comes back *)
     SetParent 2 None ].
 
-Lemma ex_safe :
+Lemma ex_history :
   let s := run ex_kinds ex_strict ex_res 7 20 12 (init_state ex_labels) ex_ops in
   (forall n, has_slash (ex_labels n) = false) /\
-  safe ex_kinds ex_strict ex_res 7 20 12 (init_state ex_labels) ex_ops = true /\
   map (fun k => snd (step ex_kinds ex_strict ex_res 7 20 12
                        (run ex_kinds ex_strict ex_res 7 20 12 (init_state ex_labels) (firstn k ex_ops))
                        (nth k ex_ops (SetStart 0 0))))
       [4; 6; 7; 9; 10] = [Err EValue; Err EAttribute; Err EAttribute; Err ECyclic; Err EParentMost] /\
-  kids s 0 = [("m", 1)]%string /\ kids s 1 = [] /\ kids s 2 = [("a", 5)]%string /\ strt s 2 = [5] /\
-  par s 2 = None /\ lbl s 3 = "b"%string /\ par s 4 = None /\ lbl s 4 = "z"%string /\
-  path 20 s 5 = Some "/n/a"%string.
+  kids s 0 = [("m", 1)]%string /\ kids s 1 = [("z", 4)]%string /\ kids s 2 = [("a", 5)]%string /\ strt s 2 = [5] /\
+  par s 2 = None /\ lbl s 3 = "b"%string /\ par s 4 = Some 1 /\
+  path 20 s 5 = Some "/n/a"%string /\ path 20 s 4 = Some "/w/m/z"%string.
 Proof.
   cbv zeta. split; [intros n; do 8 (destruct n as [|n]; [reflexivity|]); reflexivity|].
   repeat split; vm_compute; reflexivity.
